@@ -273,7 +273,7 @@ def emitted_rows(kind, old_tree, new_tree):
     # the production composition (what `annet patch` / `annet deploy` run): make_diff -> make_pre -> patch_from_pre on the
     # rulebook the provider returns for this hardware; the VLAN logics read the unchanged rows of their key, so it matters
     # what the caller hands them
-    _diff, pt = api._diff_and_patch(_dev(kind.hwname, hw), env.to_odict(old_tree), env.to_odict(new_tree), None, None, False)
+    _diff, pt = env.diff_and_patch(_dev(kind.hwname, hw), env.to_odict(old_tree), env.to_odict(new_tree), None, None, False)
     rows = []
     for it in pt.itms:
         if kind.parent:
